@@ -50,6 +50,16 @@ func RunC06(c *Ctx) {
 			} else if wok && (!bytes.Equal(got, ws) || p != wend) {
 				c.Rec.Violate(cs, "ReadStringBytes value/offset!=model", "ReadStringBytes", exp, fmt.Sprintf("val=%q p=%d", got, p))
 			}
+			// the input as a prefix of a larger buffer whose spare capacity holds a low-surrogate escape
+			// and a closing quote: the result may depend on data[:len] only
+			if len(d) <= 256 {
+				gb, pb, eb := rjson.ReadStringBytes(withBait(d), nil)
+				c.Rec.Evals(1)
+				c.Rec.C("calls_repeated_with_bait_in_spare_capacity")
+				if (eb == nil) != (err == nil) || pb != p || (err == nil && !bytes.Equal(gb, got)) {
+					c.Rec.Violate(cs, "ReadStringBytes result depends on bytes beyond len(data)", "ReadStringBytes", fmt.Sprintf("val=%q p=%d err=%s", got, p, errStr(err)), fmt.Sprintf("val=%q p=%d err=%s", gb, pb, errStr(eb)))
+				}
+			}
 			// growth boundaries: destinations of every capacity 0..need+2 (short tokens) or a few (long)
 			if wok {
 				need := len(ws)
